@@ -40,6 +40,7 @@ type SpecFuncInfo struct {
 	ResSort   *smt.Sort
 	ResGo     types.Type
 	defText   string
+	def       *smt.DefFun
 	defDeps   []string
 	building  bool
 }
@@ -737,6 +738,15 @@ func (e *Engine) boxHeap(t types.Type) (string, *smt.Sort) {
 	s := smt.Arr(smt.Ref, e.SortOf(t))
 	e.HeapSorts[name] = s
 	return name, s
+}
+
+func init() {
+	smt.GroundAxiomHook = func(t *smt.Term) []*smt.Term {
+		if strings.HasPrefix(t.Name, "sub$") && len(t.Args) == 1 {
+			return []*smt.Term{smt.Neq(t, RefNil), smt.Eq(smt.App("parent$"+t.Name, smt.Ref, t), t.Args[0])}
+		}
+		return nil
+	}
 }
 
 func (e *Engine) subRef(st types.Type, idx int, r *smt.Term) *smt.Term {
